@@ -128,6 +128,20 @@ theorem chunks_lossless (cfg : Cfg) (l : List NetTx) :
     ∀ c ∈ chunkTransactionList cfg l, csize cfg c ≤ cfg.maxMsg - cfg.msgOverhead ∨ c.length ≤ 1 :=
   ⟨chunks_flatten cfg l, chunks_bounded cfg l⟩
 
+/-- **every TransactionList message fits**: counting `txOverhead` bytes of framing for EVERY transaction (as the source
+    does), each chunk stays within `maxMsg − msgOverhead` whenever each transaction fits on its own. (That the real
+    protobuf framing needs at most `txOverhead` per transaction and `msgOverhead` per message is measured by the harness
+    on the real marshalled size of every message the senders produce.) -/
+theorem chunks_fit_message_limit (cfg : Cfg) (l : List NetTx) (hfit : ∀ t ∈ l, netSize cfg t ≤ cfg.maxMsg - cfg.msgOverhead) :
+    ∀ c ∈ chunkTransactionList cfg l, csize cfg c ≤ cfg.maxMsg - cfg.msgOverhead := chunks_fit cfg l hfit
+
+/-- the chunk size accounting of the source: room = message limit − message overhead; every transaction counts its payload,
+    its data and the per-transaction overhead; the same limit is what the gRPC client and server enforce -/
+theorem fact_chunk_accounting :
+    Facts.C07.chunkMaxExpr = "grpc.MaxMessageSizeInBytes - transactionListMessageOverhead" ∧
+    Facts.C07.chunkTxSizeExpr = "len(tx.Payload) + len(tx.Data) + transactionListTXOverhead" ∧
+    Facts.C07.grpcLimitOptions = ["grpc.MaxCallRecvMsgSize", "grpc.MaxCallSendMsgSize", "grpc.MaxRecvMsgSize", "grpc.MaxSendMsgSize"] := by decide
+
 /-- **a range reply is sorted by clock and is exactly the node's transactions in the (two-page-limited) range**, so a
     receiver that has everything below the range can add it in order; a list reply is a clock-sorted rearrangement of
     the requested present transactions for every sort meeting `OrderOK` -/
